@@ -184,6 +184,34 @@ func attach(a attrs, r *gen.Rand, d D) D {
 			s.SetPTS(gots.PTS(a.PTS))
 		}
 	}
+	if !a.HasPTS && a.Noise != 0 {
+		// a signal without a time comes in several shapes: no command to speak of (splice_null), or a time_signal /
+		// splice_insert whose time_specified_flag is off - with or without a time value left in the command
+		switch r.Intn(4) {
+		case 1:
+			ts := scte35.CreateTimeSignalCommand()
+			if r.Bool() {
+				ts.SetHasPTS(true)
+				ts.SetPTS(gots.PTS(a.PTS))
+			}
+			ts.SetHasPTS(false)
+			s.SetCommandInfo(ts)
+		case 2:
+			si := scte35.CreateSpliceInsertCommand()
+			si.SetIsProgramSplice(true)
+			if r.Bool() {
+				si.SetHasPTS(true)
+				si.SetPTS(gots.PTS(a.PTS))
+			}
+			si.SetHasPTS(false)
+			s.SetCommandInfo(si)
+		case 3:
+			ts := scte35.CreateTimeSignalCommand()
+			s.SetCommandInfo(ts)
+			s.SetPTS(gots.PTS(a.PTS))
+			s.SetHasPTS(false)
+		}
+	}
 	if order == 0 {
 		s.SetDescriptors([]D{d})
 	}
